@@ -1,4 +1,4 @@
-\* the code as found (all deviation switches FALSE except the repaired barrier): TLC reports the contract violations (run with -continue)
+\* the code as it is at /repo 08f478c (deviation switches FALSE except the two repaired ones: BarrierExits f48cb71, SharedKept c10d6e1): TLC reports the contract violations (run with -continue)
 SPECIFICATION Spec
 CHECK_DEADLOCK FALSE
 VIEW view
@@ -17,7 +17,7 @@ CONSTANTS
   StartRollback = FALSE
   EntityGC = FALSE
   PollerExits = FALSE
-  SharedKept = FALSE
+  SharedKept = TRUE
   JoinedStopped = FALSE
   LateRegisterChecked = FALSE
   BarrierExits = TRUE
